@@ -19,7 +19,7 @@ ASSUMPTIONS = c02.ASSUMPTIONS[:3] + [
     'daemons/timers in these scenarios do not patch (their patches are outside the barrier the property anchors)',
     'equality at the deadline is allowed (a handler may run exactly at t + consistency_timeout)',
 ]
-BUDGET = {'quick': 40, 'thorough': 1000}
+BUDGET = {'quick': 120, 'thorough': 1000}
 CHANGE = ('create', 'update', 'delete', 'resume', 'sub')
 
 
